@@ -556,6 +556,43 @@ def correspondence(rep, rng, tier):
           info=dict(kind='lc', impl='wrapper', s='0x0', length=1 << 31), nontrivial=False)
   rep.absorb(b, b.run())
 
+  # --- 4b. wrapper glue (Props/C14Wrapper.lean): `s.to_bytes(size, "little")` against
+  #         `BMCpp.toBytesLE`, and the real LinearComplexity against the wrapper executed over
+  #         the WORD-LEVEL C++ model of either variant (`BMCpp.linearComplexityCpp`), errors included
+  b = DedupBatch('bm.glue')
+
+  def tb(size, x):
+    try:
+      ba = x.to_bytes(size, 'little')
+    except OverflowError:
+      return 'err OverflowError'
+    return 'ok ' + (ba.hex() if ba else '[]')
+  glue = []
+  for length in list(range(0, 26)) + [31, 32, 33, 63, 64, 65, 71, 72, 73, 127, 128, 129, 191, 192, 193, 500, 1000]:
+    size = (length + 7) // 8
+    for _ in range(3 if tier == 'quick' else 8):
+      base = rng.getrandbits(length) if length else 0
+      glue.append((base, length, 'fits'))
+      glue.append((base | (1 << (8 * size)) >> 1 if size else 0, length, 'top-bit'))     # highest bit of the last byte
+      glue.append((base | (1 << (8 * size)), length, 'overflow'))                       # one bit too many
+      glue.append(((1 << (8 * size)) - 1, length, 'all-ones'))
+  for length in (-1, -3, -7, -8, -9):
+    for x in (0, 1, 5):
+      glue.append((x, length, 'neg-length'))
+  for x, length, tag in glue:
+    size = (length + 7) // 8
+    if size >= 0:
+      b.add('bm.to_bytes %s %s' % (H(size), H(x)), tb(size, x), tag='to_bytes:' + tag)
+    r = im.wrapper(x, length)
+    for v in ('portable', 'clmul'):
+      b.add('bm.wrapper_cpp %s %s %s' % (v, H(x), H(length)), r,
+            tag='wrapper_cpp:%s:%s:%s' % (v, tag, r.split()[0]),
+            pred=(None if not r.startswith('ok') or length < 0 else
+                  lc_pred(lambda x=x, length=length: im.bm.LinearComplexity(x, length),
+                          x & ((1 << length) - 1), length)),
+            info=dict(kind='lc', impl='wrapper', s=hex(x), length=length))
+  rep.absorb(b, b.run())
+
   # negative s is outside the model (a bit sequence is a non-negative int): probe only
   probes = dict(native_neg_s_same_as_masked=0, native_neg_s_differs=[], wrapper_neg_s=set())
   for length in (0, 1, 5, 8, 64, 65, 130):
